@@ -17,7 +17,8 @@ SHARD = 120
 RULE = ('case = (list of extents of a context: complete, a sub-list keeping top and bottom, or a non-graded family '
         '(pentagon-like, uneven chains below a node: every family of object sets is a sub-list of the concepts of '
         'the context with one attribute per set); sorted or '
-        'shuffled; flag), routine, n_jobs, [chains | concept to add | index to remove]; '
+        'shuffled; flag: set on the sort_concepts listing AND on arbitrary linear extensions - random topological, '
+        'depth-first, adjacent swaps - since is_concepts_sorted promises only a topological listing), routine, n_jobs, [chains | concept to add | index to remove]; '
         'non-trivial = at least 5 concepts, at least one pair of incomparable concepts and at least one '
         'non-cover comparable pair (so the transitive reduction has something to remove)')
 EXHAUSTIVE = {'thorough': 'all 3x3 boolean tables x {complete list sorted, complete list reversed} x the '
@@ -246,11 +247,76 @@ def pick_list(rng, table, max_n, complete=None):
     return exts, complete
 
 
+def random_topological(rng, exts):
+    """A random linear extension: every concept after all its (strict) super-concepts."""
+    s = [frozenset(e) for e in exts]
+    n = len(s)
+    placed, out = set(), []
+    while len(out) < n:
+        ready = [i for i in range(n) if i not in placed and all(j in placed for j in range(n) if s[i] < s[j])]
+        i = rng.choice(ready)
+        placed.add(i)
+        out.append(i)
+    return [exts[i] for i in out]
+
+
+def dfs_topological(rng, exts):
+    """Depth-first linear extension (reverse post-order of the cover DAG): supports go up and down along it."""
+    s = [frozenset(e) for e in exts]
+    n = len(s)
+    cov = covers_py(exts)
+    seen, post = set(), []
+
+    def visit(i):
+        seen.add(i)
+        ch = sorted(cov[i])
+        rng.shuffle(ch)
+        for j in ch:
+            if j not in seen:
+                visit(j)
+        post.append(i)
+    roots = [i for i in range(n) if not any(s[i] < s[j] for j in range(n))]
+    rng.shuffle(roots)
+    for r in roots:
+        if r not in seen:
+            visit(r)
+    return [exts[i] for i in reversed(post)]
+
+
+def tie_swapped(rng, exts):
+    """The support-sorted listing with random swaps of adjacent incomparable concepts (still a linear extension)."""
+    l = list(exts)
+    for _ in range(2 * len(l)):
+        if len(l) < 2:
+            break
+        k = rng.randrange(len(l) - 1)
+        a, b = frozenset(l[k]), frozenset(l[k + 1])
+        if not (b < a):
+            l[k], l[k + 1] = l[k + 1], l[k]
+    return l
+
+
+def is_topological(exts):
+    s = [frozenset(e) for e in exts]
+    return all(not (s[i] < s[j]) or j < i for i in range(len(s)) for j in range(len(s)))
+
+
 def arrange(rng, exts):
-    """(listing, flag): sorted with the flag, sorted without it, shuffled, reversed."""
-    mode = rng.choice(['sorted_flag', 'sorted_flag', 'sorted_noflag', 'shuffled', 'shuffled', 'reversed'])
+    """(listing, flag).  The flag is_concepts_sorted=True promises a TOPOLOGICAL listing (every concept after all
+    its super-concepts), not the particular order of sort_concepts: besides the support-sorted listing the flag
+    is set on random linear extensions, depth-first ones and support-sorted ones with adjacent swaps."""
+    mode = rng.choice(['sorted_flag', 'topo_random_flag', 'topo_dfs_flag', 'topo_tieswap_flag',
+                       'sorted_noflag', 'shuffled', 'shuffled', 'reversed', 'topo_dfs_noflag'])
     if mode == 'sorted_flag':
         return list(exts), True, mode
+    if mode == 'topo_random_flag':
+        return random_topological(rng, exts), True, mode
+    if mode == 'topo_dfs_flag':
+        return dfs_topological(rng, exts), True, mode
+    if mode == 'topo_tieswap_flag':
+        return tie_swapped(rng, exts), True, mode
+    if mode == 'topo_dfs_noflag':
+        return dfs_topological(rng, exts), False, mode
     if mode == 'sorted_noflag':
         return list(exts), False, mode
     if mode == 'reversed':
@@ -530,6 +596,10 @@ def stats(case):
     d = {'op': OPS[case['op']], 'n_concepts': n if n < 10 else '%d-%d' % (n // 5 * 5, n // 5 * 5 + 4),
          'flag': case['sorted'], 'n_jobs': case['n_jobs'], 'kind': case.get('kind', '').split('/', 1)[-1],
          'chains': 'given' if case.get('chains') else 'library', 'switchinterval': bool(case.get('switch'))}
+    if case['sorted']:
+        sup = [len(e) for e in case['exts']]
+        d['flagged listing'] = ('support non-increasing' if all(sup[i] >= sup[i + 1] for i in range(len(sup) - 1))
+                                else 'topological, supports go up and down')
     if case['op'] in (8, 9):
         full = case['exts'] + ([case['new']] if case.get('new') is not None else [])
         d['add/remove order'] = 'graded' if is_graded(full) else 'non-graded'
